@@ -3,7 +3,10 @@ package harness
 import (
 	"fmt"
 	"os"
+	"strconv"
 	"strings"
+
+	"verif/engine/vsys"
 )
 
 // Family "seq": one sequential history against the reference model.
@@ -23,6 +26,7 @@ var catProp = map[string][]string{
 	"lost": {"C01"}, "phantom": {"C02"}, "zero-op": {"C02"}, "order": {"C03"}, "name": {"C08"}, "from": {"C11"},
 	"watchlist": {"C04"}, "errclass": {"C04"}, "state-changed": {"C04"}, "tables": {"C12"}, "marks": {"C12"},
 	"errors-chan": {"C10"}, "overflow": {"C10", "C01"}, "stuck": {"C05"}, "panic": {"C04", "C07"},
+	"capacity": {"C14"}, "absorb": {"C14"}, "postclose": {"C06", "C14"}, "foreign": {"C14"},
 }
 
 func pstrs(p map[string]any, k string) []string {
@@ -49,6 +53,8 @@ func mkFixture(name string) {
 	file := func(p string) { mustNil(os.WriteFile(p, []byte("x"), 0o644)) }
 	switch name {
 	case "std":
+		wd, _ := os.Getwd()
+		defer func() { mustNil(os.Symlink(wd+"/w/d", "w/lda")) }()
 		mk("w/d/s")
 		mk("w/d2")
 		mk("w/o")
@@ -81,6 +87,7 @@ func seqScenario(p map[string]any) *Scenario {
 	initOps, ops := pstrs(p, "init"), pstrs(p, "ops")
 	noq := pint(p, "noq", 0)
 	tag09 := pstr(p, "tag09", "") == "true"
+	tag14 := pstr(p, "tag14", "") == "true"
 	sc := &Scenario{Name: fmt.Sprintf("seq/%s/%s", fix, strings.Join(append(append([]string{}, initOps...), ops...), ";")), Params: p}
 	if len(sc.Name) > 150 {
 		sc.Name = sc.Name[:150]
@@ -91,38 +98,172 @@ func seqScenario(p map[string]any) *Scenario {
 			mustNil(os.Chdir("w"))
 			defer os.Chdir("..")
 		}
-		s := NewSeqState(x, capa)
-		x.Vars["seq"] = s
+		if pstr(p, "syncclose", "") == "true" {
+			vsys.DrainCloses() // descriptor numbers must not depend on closes still in flight from earlier executions
+			vsys.Get().SyncClose = true
+		}
+		if n := pint(p, "maxsteps", 0); n > 0 {
+			x.S.MaxSteps = n
+		}
+		lateq := pstr(p, "late", "") == "q" // no consumer during the history, but quiescence after every step (the reader gets as far as the buffer allows)
+		late := pstr(p, "late", "") == "true" || lateq
+		inject := pstr(p, "inject", "") == "true"
+		states := []*SeqState{NewSeqState(x, capa, inject, late)}
+		x.Vars["seqs"] = &states
 		for _, c := range pstrs(p, "skip") {
-			s.Skip[c] = true
+			states[0].Skip[c] = true
 		}
-		x.Quiesce()
-		for _, op := range initOps {
-			s.DoOp(op)
+		// "k:op" addresses watcher k (created on demand with "k:N [cap]"); plain ops go to watcher 0
+		do := func(op string) {
+			op = strings.TrimSpace(op)
+			k := 0
+			if i := strings.Index(op, ":"); i > 0 && i <= 2 && !strings.Contains(op[:i], " ") {
+				if n, err := strconv.Atoi(op[:i]); err == nil {
+					k, op = n, strings.TrimSpace(op[i+1:])
+				}
+			}
+			if strings.HasPrefix(op, "N") && (op == "N" || op[1] == ' ') {
+				c := -1
+				if f := strings.Fields(op); len(f) > 1 {
+					c, _ = strconv.Atoi(f[1])
+				}
+				for len(states) <= k {
+					states = append(states, nil)
+				}
+				states[k] = NewSeqState(x, c, false, false)
+				return
+			}
+			if k >= len(states) || states[k] == nil {
+				return // addressed watcher does not exist: no-op
+			}
+			if states[k].Closed {
+				// the API of a closed Watcher must be inert (C06) and must not touch anyone else (C14)
+				s := states[k]
+				f := strings.Fields(op)
+				nCalls := len(vsys.Get().Calls)
+				defer func() {
+					if cs := vsys.Get().Calls[nCalls:]; len(cs) > 0 {
+						s.problem("postclose", "a closed Watcher still reaches the kernel: "+cs[0].Kind, fmt.Sprintf("%s on the closed Watcher made syscalls %+v (its descriptor number may belong to another Watcher by now)", op, cs))
+					}
+				}()
+				switch f[0] {
+				case "A":
+					if err := x.Add(s.W, strings.ReplaceAll(f[1], "$W", x.Root)); ErrClass(err) != "ErrClosed" {
+						s.problem("postclose", "Add on a closed Watcher did not fail with ErrClosed", fmt.Sprint(err))
+					}
+				case "R":
+					if err := x.Remove(s.W, strings.ReplaceAll(f[1], "$W", x.Root)); err != nil {
+						s.problem("postclose", "Remove on a closed Watcher returned an error", fmt.Sprint(err))
+					}
+				case "L":
+					if l := x.WatchList(s.W); l != nil {
+						s.problem("postclose", "WatchList on a closed Watcher is not nil", fmt.Sprint(l))
+					}
+				case "C":
+					x.Close(s.W)
+				}
+				return
+			}
+			states[k].DoOp(op)
+		}
+		checkpoint := func() {
 			x.Quiesce()
-			s.Checkpoint()
+			for _, s := range states {
+				if s != nil {
+					s.Checkpoint()
+				}
+			}
 		}
-		before := s.Canon()
+		canon := func() string {
+			var b strings.Builder
+			for i, s := range states {
+				if s != nil && !s.Closed {
+					fmt.Fprintf(&b, "W%d[%s] ", i, s.Canon())
+				} else if s != nil {
+					fmt.Fprintf(&b, "W%d[closed] ", i)
+				}
+			}
+			return b.String()
+		}
+		if !late {
+			x.Quiesce()
+		}
+		for _, op := range initOps {
+			do(op)
+			if late {
+				x.Quiesce() // no consumer yet: nothing to compare
+				continue
+			}
+			checkpoint()
+		}
+		before := canon()
 		for i, op := range ops {
 			// "a ;; b ;; c" is a burst: no quiescence between its parts, so the
 			// notifications of all parts are still queued when the reader runs
 			for _, part := range strings.Split(op, ";;") {
-				s.DoOp(strings.TrimSpace(part))
+				do(part)
+			}
+			if lateq {
+				x.Quiesce()
+				continue
+			}
+			if late {
+				continue
 			}
 			if noq&(1<<i) == 0 || i == len(ops)-1 {
-				x.Quiesce()
-				s.Checkpoint()
+				checkpoint()
 			}
 		}
-		after := s.Canon()
+		if late {
+			// the history ran with no consumer: a Watcher whose buffer can hold
+			// all events must have absorbed them (reader back at the kernel
+			// queue, nothing left there); then the consumer drains
+			x.Quiesce()
+			s := states[0]
+			if n := pint(p, "expect_absorbed", -1); n >= 0 && s.Cap >= n {
+				if q := vsys.Fionread(s.Fd); q > 0 {
+					s.problem("absorb", "a buffered Watcher with enough capacity did not absorb the pending events without a consumer", fmt.Sprintf("cap=%d, %d bytes still in the kernel queue", s.Cap, q))
+				}
+			}
+			s.StartConsumer()
+			checkpoint()
+		}
+		after := canon()
+		var evs []string
+		for _, o := range x.Log {
+			if o.W == 0 && (o.Kind == "event" || o.Kind == "error") {
+				evs = append(evs, fmt.Sprintf("%s %d %q %q %s", o.Kind, o.Op, o.Name, o.From, o.Err))
+			}
+		}
+		x.Vars["aux"] = strings.Join(evs, "\n")
 		x.Vars["canon"] = after
 		x.Vars["nochange"] = before == after
 	}
 	sc.Check = func(x *X, e *End) []Violation {
 		var out []Violation
-		s, _ := x.Vars["seq"].(*SeqState)
+		var all []Problem
+		skip := map[string]bool{}
+		if sp, ok := x.Vars["seqs"].(*[]*SeqState); ok {
+			for i, s := range *sp {
+				if s == nil {
+					continue
+				}
+				if i == 0 {
+					skip = s.Skip
+				}
+				for _, pr := range s.Problems {
+					if i > 0 {
+						pr.Sig = fmt.Sprintf("watcher %d: %s", i, pr.Sig)
+					}
+					all = append(all, pr)
+				}
+			}
+		}
 		emit := func(pr Problem) {
 			props := catProp[pr.Cat]
+			if tag14 && (pr.Cat == "lost" || pr.Cat == "phantom" || pr.Cat == "order") {
+				props = append(append([]string{}, props...), "C14")
+			}
 			if tag09 && (pr.Cat == "watchlist" || pr.Cat == "errclass" || pr.Cat == "phantom" || pr.Cat == "lost") {
 				props = append(append([]string{}, props...), "C09")
 			}
@@ -130,13 +271,11 @@ func seqScenario(p map[string]any) *Scenario {
 				out = append(out, Violation{Property: prop, Signature: pr.Cat + ": " + pr.Sig, Detail: pr.Detail})
 			}
 		}
-		if s != nil {
-			for _, pr := range s.Problems {
-				if s.Skip[pr.Cat] {
-					continue
-				}
-				emit(pr)
+		for _, pr := range all {
+			if skip[pr.Cat] {
+				continue
 			}
+			emit(pr)
 		}
 		if e.Failure != "" {
 			emit(Problem{"panic", "panic: " + panicSite(e.Failure), e.Failure})
